@@ -409,12 +409,12 @@ func bounds(tier string) tierBounds {
 		}
 		all = append(all, 127, 128, 129, 130)
 		return tierBounds{
-			general: []pass{{6, 2}, {5, 3}, {3, 4}}, slow: []pass{{5, 2}, {4, 3}}, paused: []pass{{6, 2}, {5, 3}}, maxPauses: 2,
+			general: []pass{{7, 2}, {6, 3}, {4, 4}, {3, 5}}, slow: []pass{{6, 2}, {5, 3}}, paused: []pass{{6, 2}, {5, 3}}, maxPauses: 2,
 			missing: []pass{{5, 2}, {4, 3}}, burstN: all, burstBound: 1, burstPollMax: 70,
 		}
 	}
 	return tierBounds{
-		general: []pass{{4, 2}, {3, 3}}, slow: []pass{{4, 2}, {3, 3}}, paused: []pass{{5, 1}, {4, 2}}, maxPauses: 1,
+		general: []pass{{5, 2}, {4, 3}, {3, 4}}, slow: []pass{{4, 2}, {3, 3}}, paused: []pass{{5, 1}, {4, 2}}, maxPauses: 1,
 		missing: []pass{{4, 2}, {3, 3}}, burstN: []int{1, 2, 3, 4, 5, 7, 8, 9, 15, 16, 17, 31, 32, 33, 40, 63, 64, 65}, burstBound: 1, burstPollMax: 40,
 	}
 }
@@ -598,8 +598,8 @@ func main() {
 		Level:      "model_checking",
 		Rule: func(prop, tier string) string {
 			return "real followreader.New (notify and polling readers) on a virtual file system + virtual inotify queue under the controlled runtime; every schedule of writer, reader, notification pump, poll timers and clock with at most B deviations from the run-until-blocked scheduler is executed, which ready select case wins is always enumerated; the consumer reads 2 bytes at a time. Families: " +
-				"(1) general: every mode {notify,poll} x {reopen,no} x {tail,no} x initial content {empty,\"x\"} x every valid history over {append a, append bc, remove after drain, create empty, create with content} (quick: up to 4 operations with B=2 and up to 3 with B=3; thorough: up to 6 with B=2, up to 5 with B=3, up to 3 with B=4); " +
-				"(2) slow consumer: the same histories with a consumer that lets virtual time pass before every Read, so that writer and notification pump run to a standstill while the reader is outside Read (quick: up to 4 with B=2, up to 3 with B=3; thorough: up to 5 with B=2, up to 4 with B=3); " +
+				"(1) general: every mode {notify,poll} x {reopen,no} x {tail,no} x initial content {empty,\"x\"} x every valid history over {append a, append bc, remove after drain, create empty, create with content} (quick: up to 5 operations with B=2, up to 4 with B=3 and up to 3 with B=4; thorough: up to 7 with B=2, up to 6 with B=3, up to 4 with B=4, up to 3 with B=5); " +
+				"(2) slow consumer: the same histories with a consumer that lets virtual time pass before every Read, so that writer and notification pump run to a standstill while the reader is outside Read (quick: up to 4 with B=2, up to 3 with B=3; thorough: up to 6 with B=2, up to 5 with B=3); " +
 				"(3) paused (polling modes): histories that additionally contain pause operations - p: the writer waits until the poller has looked at the path (Stat) once more, anywhere but at the end; q: twice more, only while the path is absent (between removal and re-creation) - at most 1 pause (quick: up to 5 operations with B=1, up to 4 with B=2) / 2 pauses (thorough: up to 6 with B=2, up to 5 with B=3) per history; " +
 				"(4) missing-at-start: re-open follow without --tail of a path that does not exist when following starts, notify and poll (poll with pauses as in 3), every valid history starting with a creation (quick: up to 4 with B=2, up to 3 with B=3; thorough: up to 5 with B=2, up to 4 with B=3); without re-open followreader.New fails by design on a missing path (not explored); " +
 				"(5) burst: histories a*N ; remove-after-drain [; create with content | ; create empty ; append (re-open modes only)] - N separate one-byte appends - for N in {1,2,3,4,5,7,8,9,15,16,17,31,32,33,40,63,64,65} (quick; polling modes N<=40) / every N<=70 and 127..130 (thorough; polling modes N<=70), every mode x initial content {empty,\"x\"} x {default consumer, slow consumer} with B=1 (the slow consumer's default schedule enqueues all N write notifications and, after the drain, the removal and re-creation before the reader consumes a single signal). " +
